@@ -228,3 +228,56 @@ def run_history(ops, mode, want_layer_lines=False):
             fl, lls, _, _ = run_force(None, acc, mode, engine=engine, nodes=nodes, want_layer_lines=want_layer_lines)
             out.append((fl, placed_labels(nodes), dict(acc), [(n.idealPos, n.width) for n in nodes]) + ((lls,) if want_layer_lines else ()))
     return out
+
+
+# ---------------------------------------------------------------------------------------- C06: stateful transliteration (ehist)
+def _eopts(acc):
+    e = {k: Fraction(v) if (k != "algorithm" and v is not None) else v for k, v in eff_force_opts(acc).items()}
+    return "~".join([fr(e["nodeSpacing"]), fr(e["lineSpacing"]), fr(e["minPos"]), fr(e["maxPos"]), e["algorithm"], fr(e["density"]), fr(e["stubWidth"])])
+
+
+def run_ehist(ops):
+    """the history on real Force / Node objects in exact arithmetic; returns the `ehist` driver line: the operations and, after every
+    compute, what getLayers() and the node objects report (data position, width, stub flag, layerIndex, currentPos, payload)"""
+    _state["exact"] = True
+    _state["layers"] = None
+    enc, obs = [], []
+    engine, nodes, acc = None, None, None
+    try:
+        for op in ops:
+            if op[0] == "new":
+                acc = dict(op[1])
+                engine = force_mod.Force({k: (conv(v, True) if k != "algorithm" else v) for k, v in eff_force_opts(acc).items()})
+                enc.append("E~" + _eopts(acc))
+                if nodes is not None and op[-1] == "keep-nodes":
+                    engine.nodes(nodes); enc.append("S")
+            elif op[0] == "nodes":
+                nodes = [Node(Fraction(p), Fraction(w), data={"i": i}) for i, (p, w) in enumerate(op[1])]
+                engine.nodes(nodes)
+                enc.append("N~" + ",".join("%s:%s" % (fr(Fraction(p)), fr(Fraction(w))) for p, w in op[1]))
+            elif op[0] == "renodes":
+                engine.nodes(nodes); enc.append("S")
+            elif op[0] == "empty-nodes":
+                engine.nodes([]); enc.append("N~")
+            elif op[0] == "options":
+                acc.update(op[1])
+                engine.set_options({k: (conv(v, True) if k != "algorithm" else v) for k, v in op[1].items()})
+                enc.append("O~" + _eopts(acc))
+            elif op[0] == "compute":
+                engine.compute()
+                enc.append("C")
+                layers = engine.getLayers() or []
+                rows = []
+                for layer in layers:
+                    row = []
+                    for n in layer:
+                        root = n
+                        k = 0
+                        while root.child and k < 10000:
+                            root = root.child; k += 1
+                        row.append("%s:%s:%s:%d:%s:%d" % (fr(n.idealPos), fr(n.width), fr(bool(n.isStub())), n.layerIndex, fr(n.currentPos), n.data["i"]))
+                    rows.append(",".join(row))
+                obs.append("@".join(rows))
+    finally:
+        _state["exact"] = False
+    return "ehist|%s|%s" % (";".join(enc), "#".join(obs))
